@@ -1875,6 +1875,9 @@ def validate_topology_heap(rng, n_cases, res):
                 reqs.append({"fn": "check_branching", "args": [heap, ix[id(out)]]})
                 expect.append(("check_branching", real(sched._check_branching, c, out)))
         listed = list(composition._components)
+        if common.TRANSLATION_STATUS.get("validate_composition", {}).get("translated"):
+            reqs.append({"fn": "validate_composition", "args": [heap, [ix[id(c)] for c in listed]]})
+            expect.append(("validate_composition", real(composition._validate_composition)))
         for fn, real_fn in (("map_inputs", sched._map_inputs), ("map_outputs", sched._map_outputs)):
             if common.TRANSLATION_STATUS.get(fn, {}).get("translated"):
                 try:   # the table as the list of its items, in insertion order
